@@ -70,6 +70,7 @@ static Json gen_c11(uint64_t seed, long i, std::vector<Format*> const& fmts)
     p.set("bufsz", r.pick({-1, -1, 0, 1, 7, 64, 512, 4096}));
     p.set("showmany", r.pick({0, 0, 1, -1}));
     if (f->name == "png" && r.chance(1, 2)) p.set("meta", 1);
+    if (e == "scanline" && r.chance(1, 2)) p.set("skip", (int)r.below(65536));
     // image_read_settings(top_left, dim): a region that lies inside the image the *valid* file declares; what the
     // corrupted file declares may be smaller, which the reader has to notice
     if (e != "info" && e != "scanline" && r.chance(1, 4))
@@ -205,7 +206,7 @@ static Json gen_c13(uint64_t seed, long i, std::vector<Format*> const& fmts)
             o.set("p", "small"); o.set("dw", (int)r.below(4)); o.set("dh", (int)r.below(4));
             if (r.chance(1, 2)) { o.set("region", 1); o.set("x", (int)r.below(20)); o.set("y", (int)r.below(20)); o.set("w", (int)r.below(20)); o.set("h", (int)r.below(20)); }
         }
-        else if (pk < 76 && f->has_scanline) o.set("p", "scan");
+        else if (pk < 76 && f->has_scanline) { o.set("p", "scan"); if (r.chance(1, 2)) o.set("skip", (int)r.below(65536)); }
         else if (pk < 84 && f->has_any) o.set("p", "any");
         else { o.set("p", r.chance(2, 3) ? "rci" : "rcv"); o.set("type", r.pick(f->convert_types)); }
         if (!o.has("p")) o.set("p", "dev");
@@ -378,6 +379,7 @@ static RunResult run_c11(Json const& plan)
     s.entry = plan.str("entry", "read_image"); s.type = plan.str("type");
     s.dev = dev_from_json(plan);
     s.meta = plan.num("meta") != 0;
+    s.skipmask = (unsigned)plan.num("skip");
     if (plan.has("sub") && plan.at("sub").a.size() == 4)
     {
         auto const& sb = plan.at("sub").a;
